@@ -106,21 +106,22 @@ type FuncVC struct {
 	globals map[string]Term
 	funcIDs map[string]int
 
-	assumed      map[string]bool // assumed contracts used (keys)
-	defaulted    map[string]bool // callees handled by the default contract
-	unsupported  []string
-	notes        []string
-	callSiteN    map[string]int
-	defers       []*ssa.Defer
-	retN         int
-	closureCells []Term
-	errs         []string
-	withFrame    bool
-	isInit       bool
-	emitted      map[string]bool
-	dryGlobals   map[string]bool
-	safety       bool
-	entryFacts   []Term
+	assumed       map[string]bool // assumed contracts used (keys)
+	defaulted     map[string]bool // callees handled by the default contract
+	unsupported   []string
+	notes         []string
+	callSiteN     map[string]int
+	defers        []*ssa.Defer
+	retN          int
+	closureCells  []Term
+	errs          []string
+	withFrame     bool
+	isInit        bool
+	emitted       map[string]bool
+	dryGlobals    map[string]bool
+	pendingClosed []pendingClosed
+	safety        bool
+	entryFacts    []Term
 }
 
 func NewFuncVC(P *Program, S *Specs, fn *ssa.Function, con *Contract) *FuncVC {
@@ -268,7 +269,45 @@ func (vc *FuncVC) newVersion(st *State, key string) Term {
 	name := fmt.Sprintf("%s_v%d", c.base, c.n)
 	vc.emit("(declare-const %s %s)", name, c.sort)
 	st.ver[key] = name
+	if key == "H:Ref" || key == "H:Slice" {
+		vc.pendingClosed = append(vc.pendingClosed, pendingClosed{st, key})
+	}
 	return Term{name, c.sort}
+}
+
+type pendingClosed struct {
+	st  *State
+	key string
+}
+
+// flushClosed states heap closedness for freshly havocked reference heaps: a reference stored in an
+// allocated object points to an allocated object (or is nil). It must be called once the state's alloc
+// version is final for the havoc in progress.
+func (vc *FuncVC) flushClosed() {
+	for _, p := range vc.pendingClosed {
+		vc.closedAxiom(p.st, p.key)
+	}
+	vc.pendingClosed = nil
+}
+
+func (vc *FuncVC) closedAxiom(st *State, key string) {
+	if _, ok := vc.comps[key]; !ok {
+		return
+	}
+	al := vc.cur(st, "alloc")
+	h := vc.cur(st, key)
+	r := vc.boundVar("r", SRef)
+	var tgt Term
+	var sel Term
+	if key == "H:Ref" {
+		sel = Select(h, r, SRef)
+		tgt = sel
+	} else {
+		sel = Select(h, r, SSlice)
+		tgt = App(SRef, "sarr", sel)
+	}
+	body := Implies(Select(al, App(SRef, "root", r), SBool), Or(Eq(tgt, Null), Select(al, App(SRef, "root", tgt), SBool)))
+	vc.emit("(assert %s)", Forall([]Term{r}, body, sel).S)
 }
 
 func (vc *FuncVC) setVersion(st *State, key string, t Term) {
